@@ -24,6 +24,7 @@ import (
 	"strconv"
 	"strings"
 	"sync"
+	"sync/atomic"
 	"time"
 
 	seccomp "github.com/elastic/go-seccomp-bpf"
@@ -226,6 +227,30 @@ type auxExpect struct {
 	opOut     []string
 }
 
+var freshCounter uint64
+
+var freshBases = []string{"aarch64", "mipsel64n32", "mips64le", "ppc64le", "amd64", "arm64", "s390x", "x86_64", "i386"}
+
+// freshSpelling returns a spelling of an architecture name in mixed letter case that this process has
+// (for the first few hundred calls) never looked up before, and the lower-case name it stands for:
+// the first lookup of a spelling must be as free of side effects as any other.
+func freshSpelling() (string, string) {
+	k := atomic.AddUint64(&freshCounter, 1)
+	base := freshBases[k%uint64(len(freshBases))]
+	bits := k/uint64(len(freshBases)) + 1
+	b := []byte(base)
+	j := 0
+	for i := range b {
+		if b[i] >= 'a' && b[i] <= 'z' {
+			if bits>>uint(j)&1 == 1 {
+				b[i] -= 'a' - 'A'
+			}
+			j++
+		}
+	}
+	return string(b), base
+}
+
 func auxCompute() *auxExpect {
 	e := &auxExpect{}
 	e.archNames = []string{"", "amd64", "x86_64", "X86_64", "i386", "386", "arm", "ARM", "arm64", "aarch64", "x32", "ppc", "mips", "s390x", "bogus", "mips64le"}
@@ -274,6 +299,15 @@ func (e *auxExpect) auxRun(which int, rounds int) string {
 				}
 				if info != nil && len(info.SyscallNames) != len(info.SyscallNumbers) {
 					return fmt.Sprintf("arch.GetInfo(%q): tables of different size", n)
+				}
+			}
+			// spellings nobody has looked up yet (any letter case resolves like the lower-case name)
+			for j := 0; j < 3; j++ {
+				v, base := freshSpelling()
+				info, err := arch.GetInfo(v)
+				want, werr := arch.GetInfo(base)
+				if info != want || (err != nil) != (werr != nil) {
+					return fmt.Sprintf("arch.GetInfo(%q) = %p,%v while other goroutines compile; arch.GetInfo(%q) = %p,%v", v, info, err, base, want, werr)
 				}
 			}
 		case 1:
@@ -691,13 +725,16 @@ func editInPlace(p *vd.Policy, gp *seccomp.Policy, seed int64) (*vd.Policy, stri
 
 func (r *runner) onePurity(pc *purityCtx, id string, p *vd.Policy, k, g int, processes bool) bool {
 	req := p.Request()
-	purReq := fmt.Sprintf("PUR %d %d %s", k, g, req)
+	purReq := fmt.Sprintf("PUR %d %d %s", k, g, p.WireRequest())
 	modelReply, err := r.model.Ask(req)
 	if err != nil {
 		r.sum.Error = err.Error()
 		return true
 	}
 	fail := func(what, goReply string) bool {
+		if p.Shared {
+			what += "\n(layout of the value: its name lists, entries and condition lists are windows of shared arrays, and equal condition lists within a group are one and the same slice — verb PS in the request)"
+		}
 		return r.mismatch(Mismatch{Case: id, Request: purReq, Go: clip(goReply, 4000), Model: clip(modelReply, 4000),
 			FailingInput: what + "\npolicy: " + req, Key: "purity:" + strings.SplitN(what, ":", 2)[0]})
 	}
@@ -784,7 +821,7 @@ func (r *runner) onePurity(pc *purityCtx, id string, p *vd.Policy, k, g int, pro
 	}
 
 	// (c) concurrent histories in the child
-	creply, cerr, died := pc.ask(k, g, req)
+	creply, cerr, died := pc.ask(k, g, p.WireRequest())
 	race := strings.Contains(cerr, "WARNING: DATA RACE")
 	switch {
 	case race:
@@ -864,6 +901,7 @@ func purityStream(r *runner, rng *rand.Rand) error {
 				p = q
 			}
 		}
+		p.Shared = rng.Intn(4) == 0 // a value whose slices are windows of shared arrays (equal condition lists: one slice)
 		k := []int{2, 3, 5}[rng.Intn(3)]
 		g := []int{2, 4, 8, 16}[rng.Intn(4)]
 		if r.onePurity(pc, fmt.Sprintf("%s#%d", prof, i), p, k, g, i%every == 0) {
